@@ -52,9 +52,12 @@ def run(ctx):
     ctx.rule = ("surface encodings of the C03 position set; 6 displacements <= 0.2 NM; receivers at 7 offsets up to ~40 NM "
                 "(longitude offset scaled so it stays < 45 degrees at high latitude) incl. the far side of the equator, of lon 0 "
                 "and of +-180; both time orders; documented argument order (even, odd); distinct = (fn, a, o, da, do, rx offset, newest)")
-    states = cprgen.run_model(ctx, "surf", "C05 surface global decode")
-    ctx.extra["model_cases"] = len(states)
-    ctx.check_events(vectors(ctx, states), case_of=case_of)
+    ctx.extra["model_cases"] = 0
+    for phase in cprgen.phases(ctx):
+        states = cprgen.run_model(ctx, "surf", "C05 surface global decode" + " (anchor shard %d/4)" % phase, phase)
+        ctx.extra["model_cases"] += len(states)
+        ctx.check_events(vectors(ctx, states), case_of=case_of)
+        del states
 
 
 replay = c01.replay
